@@ -34,6 +34,96 @@ def byte_parser_worker(args):
     return out
 
 
+def range_worker(args):
+    """<HandRange as FromStr>::from_str on L fully symbolic UTF-8 bytes (commas and spaces included: the scan forks on them), then
+    on every resulting range: rank_pairs(), orphan_card_pairs(), to_string(), and FlopExhaustiveEvaluatorIterator::new + one frame of next()"""
+    src, L, mir, part, parts = args
+    t0 = time.time()
+    import z3, mirx, copy
+    from mlib import (load_lib, sat_model, model_bytes, fn, run_fn, is_panic, sym_str, wf_utf8, Ref, Cell, PyObj, Agg, Arr, Int, some, NONE, mk_card)
+    import tokens, itermodel
+    out = dict(L=L, panics=[], error=None, paths=0, ranges=0)
+    try:
+        M = load_lib(src, 'dev', mir)
+        f_parse = fn(M, '<HandRange as FromStr>::from_str')
+        consumers = [('rank_pairs', fn(M, 'HandRange::rank_pairs')), ('orphan_card_pairs', fn(M, 'HandRange::orphan_card_pairs'))]
+        f_fmt = fn(M, '<HandRange as std::fmt::Display>::fmt')
+        f_new = fn(M, 'FlopExhaustiveEvaluatorIterator::new')
+        f_next = fn(M, '<FlopExhaustiveEvaluatorIterator as Iterator>::next')
+        efields = itermodel.struct_fields(src, 'src/evaluator/flop_exhaustive.rs', 'FlopExhaustiveEvaluator')
+        bs, s_ = sym_str('b', L)
+        pc0 = [wf_utf8(bs)] + (tokens.part_cons(part, parts)(bs) if parts > 1 else [])
+        res = run_fn(M, f_parse, [s_], pc0)
+        out['paths'] = len(res)
+
+        def witness(pc, stage, msg):
+            c, m = sat_model(pc)
+            if c != z3.sat:
+                return
+            b = model_bytes(m, bs)
+            out['panics'].append(dict(stage=stage, msg=msg, hex=b.hex(), text=b.decode('utf-8', 'replace')))
+        seen = set()
+        for r in res:
+            if is_panic(r):
+                witness(r.pc, 'parse', r.result[1]); continue
+            if r.result.var != 'Ok':
+                continue
+            hr = r.result.f[0]
+            sig = repr([(repr(sl[0])) for sl in hr.f[0].slots])
+            if sig in seen:          # same set of combos (weights differ symbolically): the consumers below do not branch on digits
+                continue
+            seen.add(sig)
+            out['ranges'] += 1
+            # the consumers are total over arbitrary maps (C06, C08, C12 decide that on symbolic maps); here a bounded number of the
+            # ranges actually produced by the parser is pushed through them, spread evenly over the paths
+            if out['ranges'] > 10 and (out['ranges'] % max(1, len(res) // 10)) != 0:
+                continue
+            out['consumed'] = out.get('consumed', 0) + 1
+            for name, f in consumers:
+                for q in run_fn(M, f, [Ref(Cell('hr', copy.deepcopy(hr)), [])], r.pc):
+                    if is_panic(q):
+                        witness(q.pc, name, q.result[1])
+            if len(hr.f[0].slots) <= 24:
+                fcell = Cell('fmt', PyObj('fmt', buf=[]))
+                for q in run_fn(M, f_fmt, [Ref(Cell('hr', copy.deepcopy(hr)), []), Ref(fcell, [])], r.pc):
+                    if is_panic(q):
+                        witness(q.pc, 'to_string', q.result[1])
+                vals = []
+                for fld, ty in efields:
+                    if fld == 'board':
+                        vals.append(Arr([some(mk_card(2, 0)), some(mk_card(6, 2)), some(mk_card(12, 1)), NONE(), NONE()]))
+                    elif fld == 'players':
+                        vals.append(PyObj('vec', items=[copy.deepcopy(hr)]))
+                    else:
+                        vals.append(Int({'turn_from': 0, 'river_from': 1, 'turn_to': 48, 'river_to': 49}.get(fld, 0), itermodel.int_width(ty)))
+                for q in run_fn(M, f_new, [Ref(Cell('ev', Agg('FlopExhaustiveEvaluator', vals)), [])], r.pc):
+                    if is_panic(q):
+                        witness(q.pc, 'evaluator-new', q.result[1]); continue
+                    M.overrides['<[Card; 7] as Into<MadeHand>>::into'] = lambda M_, st_, a_: Agg('MadeHand', [Int(1, 16)])
+                    M.overrides['<MadeHand as From<[Card; 7]>>::from'] = M.overrides['<[Card; 7] as Into<MadeHand>>::into']
+                    M.overrides['<FlopExhaustiveEvaluatorIterator as Iterator>::next'] = lambda M_, st_, a_: NONE()
+                    heads, succ = itermodel.loop_heads(f_next)
+                    M.cut = None
+                    st2 = mirx.State(); st2.pc = list(q.pc)
+                    st2.frames = [mirx.Frame(f_next, [Ref(Cell('it', q.result), [])], None, None)]
+                    try:
+                        for w in M.run(st2, limit=400000):
+                            if is_panic(w):
+                                witness(w.pc, 'evaluator-next', w.result[1])
+                    except mirx.Unsupported as e:
+                        if 'step limit' not in str(e):
+                            raise
+                    finally:
+                        for k_ in ('<[Card; 7] as Into<MadeHand>>::into', '<MadeHand as From<[Card; 7]>>::from', '<FlopExhaustiveEvaluatorIterator as Iterator>::next'):
+                            M.overrides.pop(k_, None)
+        out.update(stmts=M.stats['stmts'], queries=M.nq, solver_s=round(M.qtime, 1))
+    except Exception as e:
+        import traceback
+        out['error'] = ('unsupported: ' + str(e)) if isinstance(e, mirx.Unsupported) else ('internal error in the check machinery: ' + repr(e) + ' | ' + traceback.format_exc()[-700:])
+    out['wall'] = round(time.time() - t0, 1)
+    return out
+
+
 def token_worker(args):
     """one string length; returns dict(L, paths, ok, err, panics=[{stage,msg,hex}], stmts, queries, solver_s, wall)"""
     src, L, mir, part, parts = args
@@ -132,6 +222,32 @@ def main():
             if not bp and not berr:
                 obs.append(Obligation('byte-parsers-total', 'holds', f"Rank/Suit/Card/CardPair::from_str on every well-formed UTF-8 string of 0..{blens[-1]} bytes: {sum(d['paths'] for d in bres)} paths, none panics", queries=bq,
                                       extra=dict(per_length_bytes=[{k: d.get(k) for k in ('L', 'paths', 'wall')} for d in bres])))
+        # ---------------- M part: whole range strings (commas / spaces symbolic) and the consumers of the parsed range
+        if not a.only or 'ranges' in a.only:
+            import tokens
+            mir = mir_dump(src, 'dev')
+            rl = list(range(0, (5 if a.tier == 'quick' else 7) + 1))
+            rjobs = [(src, L, mir, k, n) for L, k, n in tokens.split_jobs(rl, heavy_from=5, parts=7)]
+            with Pool(NCPU) as pool:
+                rres = pool.map(range_worker, rjobs, chunksize=1)
+            rerr = [d for d in rres if d['error']]
+            rp = [(d['L'], p) for d in rres for p in d['panics']]
+            rq = sum(d.get('queries', 0) for d in rres)
+            if rerr:
+                obs.append(Obligation('range-strings', 'inconclusive', f"L={rerr[0]['L']}: {rerr[0]['error']}"))
+            groups = {}
+            for L, p in rp:
+                groups.setdefault(p['stage'] + (':non-ascii' if any(ord(ch) > 127 for ch in p['text']) else ''), []).append((L, p))
+            for role, lst in sorted(groups.items()):
+                L, p = min(lst, key=lambda x: x[0])
+                rc, kv, raw = replay(bins, 'debug', ['parse', 'range', p['hex']])
+                rep = kv.get('result') == 'panic'
+                obs.append(Obligation('no-panic:range:' + role, 'violated', f"{len(lst)} panicking paths, e.g. {p['text']!r} at {p['stage']}: {p['msg']}; native: {kv.get('result')} at {kv.get('stage')} {kv.get('message', '')}",
+                                      cex=dict(kind='range', hex=p['hex'], text=p['text'], stage=p['stage'], native=kv.get('message'), reproduced=rep), key='range:' + role, queries=rq))
+            if not rp and not rerr:
+                obs.append(Obligation('range-parse-and-consumers-total', 'holds',
+                                      f"HandRange::from_str on every well-formed UTF-8 string of 0..{rl[-1]} bytes ({sum(d['paths'] for d in rres)} paths), then rank_pairs / orphan_card_pairs / to_string / evaluator new()+next() on {sum(d.get('consumed', 0) for d in rres)} of the {sum(d['ranges'] for d in rres)} distinct parsed ranges: none panics",
+                                      queries=rq, extra=dict(per_length_ranges=[{k: d.get(k) for k in ('L', 'paths', 'ranges', 'wall')} for d in rres])))
         # ---------------- M part: tokens
         if not a.only or 'tokens' in a.only:
             lens = list(range(0, Lmax + 1))
